@@ -770,6 +770,11 @@ def bodies_for(rule):
                 ('mixed-mp-both', {'attr': dict(base, **{'14': {'afi_safi': [2, 1], 'nexthop': '2001:db8::1', 'nlri': ['2001:db8:1::/48']},
                                                          '15': {'afi_safi': [2, 1], 'withdraw': ['2001:db8:2::/48']}}), 'nlri': ['10.5.0.0/16'], 'withdraw': ['10.9.0.0/16']},
                  dict(u, valid=True, etype='UPDATE', nln=1, wdn=1, ats=[1, 2, 3, 14, 15])),
+                # requests that pass the REST layer's checks but cannot be encoded: refused, and nothing else changes
+                ('bad-asn', {'attr': dict(base, **{'2': [[2, [4294967296]]]}), 'nlri': ['10.5.0.0/16']}, dict(u, etype='UPDATE')),
+                ('bad-nexthop', {'attr': dict(base, **{'3': 'not-an-address'}), 'nlri': ['10.5.0.0/16']}, dict(u, etype='UPDATE')),
+                ('bad-med', {'attr': dict(base, **{'4': 4294967296}), 'nlri': ['10.5.0.0/16']}, dict(u, etype='UPDATE')),
+                ('bad-community', {'attr': dict(base, **{'8': ['1:2:3:x']}), 'nlri': ['10.5.0.0/16']}, dict(u, etype='UPDATE')),
                 ('empty', {}, dict(u, etype='UPDATE'))]
     if rule == 'send/route-refresh':
         return [('ipv4', {'afi': 1, 'safi': 1}, dict(u, valid=True, etype='RR', rr=[1, 0, 1])), ('unsupported-family', {'afi': 2, 'safi': 1}, dict(u, etype='RR')),
@@ -784,6 +789,13 @@ def bodies_for(rule):
                 ('safi-huge', {'afi': 1, 'safi': 256}, dict(u, etype='RR'))]
     if rule == 'send/bin_update':
         return [('update-hex', {'binary_data': BIN_UPDATE.hex()}, dict(u, valid=True, etype='UPDATE', nln=1, ats=[1, 2, 3])),
+                # octets that are not one BGP message (leading zero octets, a short frame, all zeros): if the agent says it
+                # sent them, exactly these octets are on the wire
+                ('raw-00-update', {'binary_data': '00' + BIN_UPDATE.hex()}, dict(u, etype='RAW')),
+                ('raw-0000-update', {'binary_data': '0000' + BIN_UPDATE.hex()}, dict(u, etype='RAW')),
+                ('raw-0a-update', {'binary_data': '0a' + BIN_UPDATE.hex()}, dict(u, etype='RAW')),
+                ('raw-zeros', {'binary_data': '00000000'}, dict(u, etype='RAW')), ('raw-short', {'binary_data': '0000001304'}, dict(u, etype='RAW')),
+                ('raw-upper', {'binary_data': BIN_UPDATE.hex().upper()}, dict(u, valid=True, etype='UPDATE', nln=1, ats=[1, 2, 3])),
                 ('odd-length', {'binary_data': 'abc'}, dict(u, etype='UPDATE')), ('nothing', {}, dict(u, etype='UPDATE'))]
     if rule == 'json_to_bin':
         return [('announce', {'attr': {'1': 0, '2': [], '3': '10.0.0.1'}, 'nlri': ['10.5.0.0/16']}, dict(u, valid=True))]
@@ -831,6 +843,12 @@ def c16_run(tid, wcfg, cfgline, state, rule, method, cred, bname, body, rq):
     o = rec.step({'k': 'rest', 'c': 0, 'rule': rule, 'method': method, 'cred': cred, 'body': body if method in ('POST', 'PUT', 'OPTIONS', 'PATCH', 'DELETE') else None, 'm': bname}, 0,
                  extra={'rq': rq})
     rec.lines[-1]['statsame'] = (pre == o['stat'])
+    if rule == 'send/bin_update' and isinstance(body, dict) and isinstance(body.get('binary_data'), str):
+        try:
+            want = bytes.fromhex(body['binary_data'])
+        except ValueError:
+            want = None
+        rec.lines[-1]['binsame'] = (want is not None and b''.join(x['raw'] for x in o['out']) == want)
     if state == 'ESTABLISHED' and cred == 'good' and method == 'POST' and RULE_CLASS.get(rule) in ('send', 'gated'):
         # the same request once more: nothing a request leaves behind may change how the next one is served
         pre2 = rec.pre['o']['stat']
